@@ -10,6 +10,7 @@ import (
 	"bytes"
 	"errors"
 	"fmt"
+	"hash/fnv"
 	"sort"
 	"strings"
 
@@ -386,6 +387,13 @@ func runC11(w *World, p map[string]int) {
 		s.checkRead(s.model, "after transaction")
 	}
 	s.db.Close()
+	// no scheduler in this check: the distinctness measure is the hash of the
+	// executed operation log
+	hh := fnv.New64a()
+	for _, o := range s.ops {
+		hh.Write([]byte(o))
+	}
+	w.S.TraceHash = hh.Sum64()
 	w.Sample = fmt.Sprintf("txs=%d buckets=%d wbuf=%d last=%s", nTx, len(s.model.buckets), s.wbuf, strings.Join(lastN(s.ops, 6), "; "))
 	w.Stats["probe.model_nonempty"] = 0
 	for _, kv := range s.model.kv {
